@@ -201,12 +201,22 @@ func variants(p *fl.Program, quick bool) []variant {
 			}
 			return nil
 		}
+		// a bound or the step of a range loop that is a plain variable: the range is evaluated
+		// once, before the first iteration
+		rangeSlot := func(slot *fl.Expr, list *[]fl.Stmt, at int) bool {
+			fr, ok := (*list)[at].(*fl.ForRange)
+			if !ok || (slot != &fr.Lo && slot != &fr.Hi && slot != &fr.Step) {
+				return false
+			}
+			v, ok := (*slot).(*fl.Var)
+			return ok && vt[v.Name] != nil && !bad[v.Name]
+		}
 		isSite := func(e fl.Expr, role string, list *[]fl.Stmt, at int) bool {
 			return role != "place" && role != "pattern" && role != "const-init" && operand(e) != nil && pureStmt((*list)[at])
 		}
 		nV := 0
 		fl.Walk(p, fl.Visitor{Expr: func(slot *fl.Expr, list *[]fl.Stmt, at int, role string) {
-			if isSite(*slot, role, list, at) {
+			if isSite(*slot, role, list, at) || rangeSlot(slot, list, at) {
 				nV++
 			}
 		}})
@@ -216,13 +226,17 @@ func variants(p *fl.Program, quick bool) []variant {
 			done := false
 			var note string
 			fl.Walk(q, fl.Visitor{Expr: func(slot *fl.Expr, list *[]fl.Stmt, at int, role string) {
-				if done || !isSite(*slot, role, list, at) {
+				isRange := rangeSlot(slot, list, at)
+				if done || !(isRange || isSite(*slot, role, list, at)) {
 					return
 				}
 				if n == i {
 					uniq++
 					name := fmt.Sprintf("copy_%d", uniq)
-					op := operand(*slot)
+					op := slot
+					if !isRange {
+						op = operand(*slot)
+					}
 					v := (*op).(*fl.Var)
 					note = "copied " + v.Name + " under " + fl.X(*slot)
 					bind := &fl.Let{Name: name, T: vt[v.Name], Init: fl.V(v.Name)}
